@@ -74,6 +74,10 @@ class Analysis:
         f = next(iter(funcs.values()))
         if f is owner or isinstance(f.node, ast.Lambda):
             return None
+        # only syntactically direct calls of the helper by its own name (not callbacks held in parameters / variables)
+        called = call.func.id if isinstance(call.func, ast.Name) else (call.func.attr if isinstance(call.func, ast.Attribute) else None)
+        if called != f.name:
+            return None
         private = (f.name.startswith('_') and not f.name.startswith('__')) or f.parent is not None
         if not private:
             return None
@@ -103,14 +107,13 @@ class Analysis:
                         out.extend(self.nodes(h, depth + 1, _seen))
         return out
 
-    def nodes_with_sites(self, func: FuncInfo, depth=0, _seen=None, _sites=()):
+    def nodes_with_sites(self, func: FuncInfo, depth=0, _stack=(), _sites=()):
         """[(ast node, owning FuncInfo, call sites)] like nodes(); `call sites` are the call nodes (outermost first)
-        through which the owning helper was reached from func - its lexical context continues there."""
-        if _seen is None:
-            _seen = set()
-        if func.qualname in _seen or depth > 3:
+        through which the owning helper was reached from func - its lexical context continues there.  A helper called
+        at several sites is listed once per site."""
+        if func.qualname in _stack or depth > 3:
             return []
-        _seen.add(func.qualname)
+        _stack = _stack + (func.qualname,)
         out = [(n, func, _sites) for n in self.typer.own_nodes(func)]
         for n in list(self.typer.own_nodes(func)):
             if isinstance(n, (ast.Expr, ast.Assign, ast.Return, ast.AugAssign, ast.AnnAssign)):
@@ -120,7 +123,7 @@ class Analysis:
                 if isinstance(v, ast.Call):
                     h = self._helper_target(v, func.node)
                     if h is not None:
-                        out.extend(self.nodes_with_sites(h, depth + 1, _seen, _sites + (v,)))
+                        out.extend(self.nodes_with_sites(h, depth + 1, _stack, _sites + (v,)))
         return out
 
     def units(self) -> dict:
